@@ -143,7 +143,7 @@ def run_gen(sc, ctx, out):
     m = materialise(sc, ctx)
     spec = m['spec']; cell = m['cell']; atol = sc['atol']; pp = spec['pp']; pel = spec['pel']
     q = ctx['tier'] == 'quick'
-    c0 = cconst(pp)
+    c0 = cconst_hints(pp)
     case = describe_case(m, sc)
     # base run + every draw answer
     exs = executions(m, sc, ctx, draw_bound(ctx['tier']))
@@ -184,7 +184,7 @@ def run_gen(sc, ctx, out):
             res, err = find(m['s'], m['p'], atol, ex, **kw); out['evals'] += 1; nrel += 1
             if err:
                 out['violations'].append(viol('no-result', 'hint-exc:' + exc_sig(err), 'hints %r: find raised %r' % (kw, err[0]), sc, case=case)); continue
-            compare(base, res, pp, atol, max(c0, cconst(pp, *f)), 'hints %r' % (kw,), sc, out, case=case)
+            compare(base, res, pp, atol, max(c0, cconst_hints(pp, *f)), 'hints %r' % (kw,), sc, out, case=case)
     # supercells
     dims = [(2, 1, 1), (1, 1, 2)] if q else (list(itertools.product((1, 2, 3), repeat=3))[1:] if n <= 6 else [(2, 1, 1), (1, 2, 1), (1, 1, 2), (2, 2, 2)])
     for d in dims:
@@ -269,7 +269,7 @@ def run_real(sc, ctx, out):
         forms = [f for f in forms if hints_valid(pp, *f)]
         if i >= len(forms):
             return
-        f = forms[i]; kw = {kk: v for kk, v in zip(('axisp1_idx', 'axisp2_idx', 'opoint_idx'), f) if v is not None}; c = max(c0, cconst(pp, *f)); what = 'hints %r' % (kw,)
+        f = forms[i]; kw = {kk: v for kk, v in zip(('axisp1_idx', 'axisp2_idx', 'opoint_idx'), f) if v is not None}; c = max(c0, cconst_hints(pp, *f)); what = 'hints %r' % (kw,)
     elif kind == 'super':
         d = tuple(i)
         sup, err = call(s.replicate, d)
